@@ -413,6 +413,45 @@ func visoLine(nodes []tnode, c visoCase) string {
 }
 
 // sfoBytes builds a well-formed PARAM.SFO with the given entries in the given order.
+// sfoBytesOrder: like sfoBytes, but the key table (and the data table) are laid out in the physical
+// order `phys` (a permutation of the entry indices) while the index table keeps the given order - the
+// format allows it, each index entry carries its own offsets.
+func sfoBytesOrder(entries [][2]string, phys []int) []byte {
+	le16 := func(v int) []byte { return []byte{byte(v), byte(v >> 8)} }
+	le32 := func(v int) []byte { return []byte{byte(v), byte(v >> 8), byte(v >> 16), byte(v >> 24)} }
+	keyOff := make([]int, len(entries))
+	dataOff := make([]int, len(entries))
+	maxLens := make([]int, len(entries))
+	var keys, data []byte
+	for _, i := range phys {
+		keyOff[i], dataOff[i] = len(keys), len(data)
+		keys = append(keys, entries[i][0]...)
+		keys = append(keys, 0)
+		val := append([]byte(entries[i][1]), 0)
+		maxLens[i] = (len(val) + 3) &^ 3
+		data = append(data, val...)
+		data = append(data, make([]byte, maxLens[i]-len(val))...)
+	}
+	var idx []byte
+	for i, e := range entries {
+		idx = append(idx, le16(keyOff[i])...)
+		idx = append(idx, 0x04, 0x02)
+		idx = append(idx, le32(len(e[1])+1)...)
+		idx = append(idx, le32(maxLens[i])...)
+		idx = append(idx, le32(dataOff[i])...)
+	}
+	for len(keys)%4 != 0 {
+		keys = append(keys, 0)
+	}
+	keyStart := 20 + len(idx)
+	hdr := append([]byte{0, 'P', 'S', 'F', 1, 1, 0, 0}, le32(keyStart)...)
+	hdr = append(hdr, le32(keyStart+len(keys))...)
+	hdr = append(hdr, le32(len(entries))...)
+	out := append(hdr, idx...)
+	out = append(out, keys...)
+	return append(out, data...)
+}
+
 func sfoBytes(entries [][2]string) []byte {
 	le16 := func(v int) []byte { return []byte{byte(v), byte(v >> 8)} }
 	le32 := func(v int) []byte { return []byte{byte(v), byte(v >> 8), byte(v >> 16), byte(v >> 24)} }
@@ -467,6 +506,18 @@ func addPS3Game(r *rng, t *tree, dir string, titleID string) {
 	}
 	t.add(tnode{path: g, kind: 'd', mtime: genMtime(r)})
 	b := sfoBytes(ents)
+	if r.chance(50) {
+		// key and data tables in another physical order than the index
+		phys := make([]int, len(ents))
+		for i := range phys {
+			phys[i] = i
+		}
+		for i := range phys {
+			j := r.intn(i + 1)
+			phys[i], phys[j] = phys[j], phys[i]
+		}
+		b = sfoBytesOrder(ents, phys)
+	}
 	t.add(tnode{path: g + "/PARAM.SFO", kind: 'f', size: int64(len(b)), seed: 0, mtime: genMtime(r), overlays: []overlay{{0, b}}})
 }
 
